@@ -107,8 +107,8 @@ def has_group_without_rep_only(forest):
 
 def element_text(tag, forms):
     "forms: dict site -> numbering form"
-    return '%s%s.c%s[t=%s u="%s"]#i%s{%s}' % (tag, forms['name'], forms['class'], forms['attr'], forms['qattr'],
-                                              forms['id'], forms['text'])
+    return '%s%s.c%s[t=%s u="%s"]#i%s{%s%s}' % (tag, forms['name'], forms['class'], forms['attr'], forms['qattr'],
+                                                forms['id'], '$#' if forms.get('placeholder') else '', forms['text'])
 
 
 def render(forest, forms, counter=None):
@@ -250,6 +250,9 @@ def variants(limits):
     "(forms dict, limit) pairs explored per template"
     base = dict((s, '$') for s in SITES)
     yield base, None
+    ph = dict(base)
+    ph['placeholder'] = True          # `$#` in every text: must not disturb which repeater later `$` runs see
+    yield ph, None
     for site in SITES:
         for f in FORMS:
             if f == '$':
